@@ -47,9 +47,11 @@ def dispatch (prop : String) (line : String) : Verdict :=
     | some "queue0" => QueueE.runQueue0 prop f obsS
     | some "qburst" => QueueE.runBurst prop f obsS
     | some "qlatency" => QueueE.runLatency prop f obsS
+    | some "qdroprace" => QueueE.runDropRace prop f obsS
     | some "sock" => SockE.runSock prop f obsS
     | some "sockmt" => SockE.runMt prop f obsS
     | some "socklock" => SockE.runLock prop f obsS
+    | some "sockcr" => SockE.runCr prop f obsS
     | some "holder" => HolderE.runHolder prop f obsS
     | some "mac" => MacrosE.runMac prop f obsS
     | _ => badCase
